@@ -132,8 +132,8 @@ def specs(deep: bool) -> list[dict]:
         dict(name="i", grid_n=2, n_mazes=5, seed=7, maze_ctor="gen_dfs_percolation", maze_ctor_kwargs=dict(p=0.9)),
         dict(name="j", grid_n=3, n_mazes=4, maze_ctor="gen_dfs", maze_ctor_kwargs=dict(start_coord=[1, 1]), applied_filters=[F("collect_generation_meta")]),
         # tiny constrained mazes: equal connection structures recur across seeds (anything memoised per maze value would leak between datasets)
-        dict(name="n", grid_n=3, n_mazes=6, seed=11, maze_ctor_kwargs=dict(accessible_cells=3)),
-        dict(name="o", grid_n=3, n_mazes=6, seed=3, maze_ctor_kwargs=dict(max_tree_depth=2)),
+        dict(name="n", grid_n=3, n_mazes=12, seed=11, maze_ctor_kwargs=dict(accessible_cells=3)),
+        dict(name="o", grid_n=3, n_mazes=12, seed=17, maze_ctor_kwargs=dict(max_tree_depth=2)),
         # a fractional argument (resolved against the grid size inside the generator; the request must keep the fraction)
         dict(name="p", grid_n=4, n_mazes=4, seed=5, maze_ctor_kwargs=dict(accessible_cells=0.5)),
     ]
@@ -168,7 +168,9 @@ def perturb(hr: _pyrandom.Random, pool: list[dict], focus: dict | None = None) -
             torch.manual_seed(hr.randrange(10**6))
         elif a == "generate":
             s = dict(focus if (focus is not None and hr.random() < 0.5) else hr.choice(pool))     # often: the very kind of dataset that is requested next
-            if hr.random() < 0.6: s["seed"] = hr.randrange(10**6)     # the same kind of dataset under another seed
+            if hr.random() < 0.6:
+                s["seed"] = hr.randrange(10**6)     # the same kind of dataset under another seed, and more of it
+                if s.get("grid_n", 9) <= 3: s["n_mazes"] = 30
             try: MazeDataset.generate(make_cfg(s))
             except ValueError: pass    # a history step may hit the documented "no valid start or end positions" of sparse percolation mazes
         elif a == "from_config":
@@ -284,6 +286,27 @@ def _child_sigs(spec_list):
     return out
 
 
+def _child_sigs_after_history(spec_list, k):
+    """in a process that has never generated these datasets: a history that generates the SAME KIND of dataset under other seeds
+    (anything memoised per maze value, per config value or per generator would carry over), then the request"""
+    warnings.filterwarnings("ignore")
+    from maze_dataset import MazeDataset
+    out = []
+    for s in spec_list:
+        hr = _pyrandom.Random(f"childhist:{k}:{s.get('name')}")
+        for j in range(3):
+            h = dict(s); h["seed"] = hr.randrange(10**6); h["name"] = "other"
+            if h.get("grid_n", 9) <= 4: h["n_mazes"] = 30
+            try:
+                (MazeDataset.generate(make_cfg(h)) if j % 2 == 0 else MazeDataset.from_config(make_cfg(h), load_local=False, save_local=False, do_download=False))
+            except ValueError:
+                pass
+        perturb(hr, spec_list, s)
+        cfg = make_cfg(s)
+        out.append([sig(MazeDataset.generate(cfg)), sig(MazeDataset.from_config(cfg, load_local=False, save_local=False, do_download=False))])
+    return out
+
+
 def _mp_child(spec):       # runs inside a multiprocessing worker (spawn)
     import common as C
     if str(C.REPO) not in sys.path: sys.path.insert(0, str(C.REPO))
@@ -308,6 +331,28 @@ def fresh_processes(ctx, S, refs, n):
                 ctx.violate(f"a fresh interpreter with PYTHONHASHSEED={hs} generated different mazes for {s}",
                             dict(spec=s, pythonhashseed=hs, gen_sig=g, reference_gen_sig=ref["gen_sig"], fc_sig=f, reference_fc_sig=ref["fc_sig"]),
                             key="generate-depends-on-process")
+
+
+def fresh_processes_with_history(ctx, S, refs, n):
+    import common as C
+    procs = []
+    for k in range(n):
+        env = dict(os.environ, PYTHONHASHSEED=str(3 + 104729 * k + ctx.seed), PYTHONDONTWRITEBYTECODE="1", VERIF_REPO=str(C.REPO))
+        procs.append((k, subprocess.Popen([sys.executable, str(Path(__file__).resolve()), "--child-hist", str(C.REPO), json.dumps(S), f"{ctx.seed}:{k}"],
+                                          stdout=subprocess.PIPE, stderr=subprocess.PIPE, text=True, env=env)))
+    for k, p in procs:
+        out, err = p.communicate(timeout=1800)
+        if p.returncode != 0:
+            raise RuntimeError(f"fresh interpreter (with history) failed: {err[-800:]}")
+        sigs = json.loads(out.strip().split("\n")[-1])
+        for s, (g, f), ref in zip(S, sigs, refs):
+            ctx.case(("process+history", json.dumps(s, sort_keys=True), k)); ctx.count("fresh_process_with_history_runs")
+            if g != ref["gen_sig"] or f != ref["fc_sig"]:
+                ctx.violate(f"in a fresh interpreter that had first generated other datasets of the same kind (same generator, grid and arguments, other seeds) "
+                            f"generate / from_config returned different mazes for {s} than without that history",
+                            dict(spec=s, history="3 datasets of the same kind under other seeds (30 mazes each on small grids) + a random history", child=k,
+                                 gen_sig=g, reference_gen_sig=ref["gen_sig"], fc_sig=f, reference_fc_sig=ref["fc_sig"]), key="generate-depends-on-history")
+                return
 
 
 def mp_children(ctx, S, refs):
@@ -351,6 +396,7 @@ def _core(ctx, deep, with_model, stop_at_first, n_hist, n_proc):
             if stop_at_first and ctx.violations:
                 return
     fresh_processes(ctx, S, refs, n_proc)
+    if not ctx.violations: fresh_processes_with_history(ctx, S, refs, 2 if ctx.quick else 8)
     if stop_at_first and ctx.violations:
         return
     mp_children(ctx, S, refs)
@@ -389,3 +435,7 @@ def replay(ctx, rp):
 if __name__ == "__main__" and len(sys.argv) >= 4 and sys.argv[1] == "--child":
     sys.path.insert(0, sys.argv[2])
     print(json.dumps(_child_sigs(json.loads(sys.argv[3]))))
+if __name__ == "__main__" and len(sys.argv) >= 5 and sys.argv[1] == "--child-hist":
+    sys.path.insert(0, sys.argv[2])
+    install_taps() if "install_taps" in globals() else None
+    print(json.dumps(_child_sigs_after_history(json.loads(sys.argv[3]), sys.argv[4])))
